@@ -15,7 +15,16 @@ import (
 )
 
 func init() {
-	register(&Prop{ID: "C17", Run: c17Run, Exec: c17ExecRecorded, Corpus: [][]string{
+	register(&Prop{ID: "C17", Run: func(c *Ctx) {
+		c17Run(c)
+		// how an exhaustion gets to the pool: the factory's create path over the real pool and the real wrappers (c07factory.go)
+		faExhaustRun(c, c.Scale(30, 300))
+	}, Exec: func(c *Ctx, ops []string) []string {
+		if len(ops) > 0 && strings.HasPrefix(ops[0], "fa.") {
+			return faExec(c, ops)
+		}
+		return c17ExecRecorded(c, ops)
+	}, Corpus: [][]string{
 		{"vsw.new 10", "vsw.cloud a z 3", "vsw.cloud b z 9", "vsw.cloud c y 50", "vsw.one ordered z 0 a,b,c", "vsw.one most z 0 a,b,c",
 			"vsw.get b", "vsw.block b", "vsw.one most z 0 a,b,c", "vsw.tick 10", "vsw.one most z 0 a,b,c", "vsw.tick 1", "vsw.one most z 0 a,b,c"},
 		{"vsw.new 10", "vsw.cloud a z 0", "vsw.cloud c y 5", "vsw.one ordered z 0 a,c", "vsw.one ordered z 1 a,c", "vsw.one ordered q 1 c,a"},
